@@ -205,14 +205,18 @@ type verdict struct {
 //	(4) at least 8 bytes follow: size (LE32) == 2^len(aux branch), nonce (LE32);
 //	(5) aux index == slot derived from nonce, chain id and the tree height.
 //
-// Precondition (enforced by the generator): at least one input, aux branch
-// shorter than 32.
+// A coinbase without inputs has no script, and a tree of 32+ levels has no
+// 32-bit size: both are refused.
 func refCheck(p *proof, blockHash h256, chainID uint32) verdict {
 	v := verdict{MarkerOffset: -1}
 	cbHash := sha256d(p.Coinbase.wire())
 	v.ParentOK = fold(cbHash, p.ParBranch, p.ParIndex) == p.Header.Root
 	if !v.ParentOK {
 		v.Clause = "coinbase-not-under-parent-root"
+		return v
+	}
+	if len(p.Coinbase.In) == 0 {
+		v.Clause = "coinbase-has-no-input"
 		return v
 	}
 	script := p.Coinbase.In[0].Script
@@ -247,7 +251,7 @@ func refCheck(p *proof, blockHash h256, chainID uint32) verdict {
 	size := binary.LittleEndian.Uint32(tail[0:4])
 	nonce := binary.LittleEndian.Uint32(tail[4:8])
 	h := len(p.AuxBranch)
-	if uint64(size) != uint64(1)<<uint(h) {
+	if h >= 32 || uint64(size) != uint64(1)<<uint(h) { // a 32-bit size field cannot hold 2^32 or more
 		v.Clause = "size-not-2^height"
 		return v
 	}
